@@ -68,6 +68,9 @@ func vh_SIS() {
 	}
 	vCover("sent")
 	post := vSnapshotNode(n)
+	if r.state != Shutdown {
+		vCheckInv(n, true, true)
+	}
 	vAssert(post.term >= mid.term, "C08.termMono")
 	vAssert(vImplies(vAnd(mid.state == Leader, post.state != Leader), post.term > mid.term), "C16.leader-steps-down-only-on-higher-term")
 	// a reply that carries a newer term always deposes the leader (the member is ahead: it must not be
